@@ -37,6 +37,8 @@ func main() {
 		err = runSM(opt)
 	case "c01":
 		err = runC01(opt)
+	case "hand":
+		err = runHand(opt)
 	case "life":
 		err = runLife(opt)
 	case "open":
